@@ -114,8 +114,12 @@ func (c *conn) closeWrite() {
 	c.w.mu.Unlock()
 }
 
+// Under the race detector a 64 KiB buffer handed from one goroutine to another
+// costs tens of milliseconds of shadow-memory work, so only the first
+// configuration uses the full size cycle; the others replace 65535 by 4096.
 var (
-	sizes      = []int{0, 1, 2, 3, 255, 256, 65535}
+	sizesFull  = []int{0, 1, 2, 3, 255, 256, 65535}
+	sizesSmall = []int{0, 1, 2, 3, 255, 256, 4096}
 	pattern    []byte
 	mismatches int64
 	packets    int64
@@ -132,7 +136,7 @@ func mismatch(format string, a ...interface{}) {
 
 // spec of packet i in direction dir (0: initiator->responder, 1: the reverse).
 // The two directions use different sizes at the same index.
-func spec(dir, i, n int) (size int, ignore bool) {
+func spec(sizes []int, dir, i, n int) (size int, ignore bool) {
 	size = sizes[(i+3*dir)%len(sizes)]
 	ignore = (i+dir)%2 == 1 && i != n-1
 	return
@@ -147,6 +151,7 @@ type config struct {
 	gInit, gResp     int
 	decInit, decResp []int
 	n                int
+	sizes            []int
 }
 
 func session(ci int, cfg config) {
@@ -199,7 +204,7 @@ func session(ci int, cfg config) {
 			defer conns[e].closeWrite()
 			<-start
 			for i := 0; i < cfg.n; i++ {
-				size, ign := spec(e, i, cfg.n)
+				size, ign := spec(cfg.sizes, e, i, cfg.n)
 				if _, _, err := ends[e].V2EncPacket(contents(e, i, size), nil, ign); err != nil {
 					mismatch("config %d dir %d: V2EncPacket #%d: %v", ci, e, i, err)
 					return
@@ -212,7 +217,7 @@ func session(ci int, cfg config) {
 			<-start
 			d := 1 - e
 			for i := 0; i < cfg.n; i++ {
-				size, ign := spec(d, i, cfg.n)
+				size, ign := spec(cfg.sizes, d, i, cfg.n)
 				if ign {
 					continue // must be skipped silently by V2ReceivePacket
 				}
@@ -248,9 +253,6 @@ func main() {
 		pprof.StartCPUProfile(f)
 		defer pprof.StopCPUProfile()
 	}
-	if os.Getenv("C19_RACE_SMALL") != "" {
-		sizes = []int{0, 1, 2, 3, 255, 256, 4000}
-	}
 	rand.Reader = &seeded{}
 	for ctr := 0; len(pattern) < 65535+4096; ctr++ {
 		h := sha256.Sum256([]byte(fmt.Sprintf("c19/race/pattern/%d", ctr)))
@@ -262,10 +264,10 @@ func main() {
 		os.Exit(3)
 	}()
 	cfgs := []config{
-		{0, 0, nil, nil, 240},
-		{5, 17, []int{0}, []int{1, 100}, 240},
-		{4095, 4094, []int{100, 0}, nil, 240},
-		{16, 4095, nil, []int{0}, 460},
+		{0, 0, nil, nil, 240, sizesFull},
+		{5, 17, []int{0}, []int{1, 100}, 240, sizesSmall},
+		{4095, 4094, []int{100, 0}, nil, 240, sizesSmall},
+		{16, 4095, nil, []int{0}, 460, sizesSmall},
 	}
 	sessions := 0
 	for rep := 0; rep < reps; rep++ {
